@@ -190,6 +190,38 @@ def acase_term(nm, r):
     return '{| ac_env := %s; ac_steps := %s; ac_final := %s |}' % (e, coq_list(steps), snap_term(nm, r['final']))
 
 
+# ---- corpus: the witnesses of Refuted/C17_refuted.v, replayed on the real hooks on every run ----------------
+
+def _word(n):
+    return '%064x' % n
+
+
+def _enc_string(b):
+    pad = (32 - len(b) % 32) % 32
+    return _word(len(b)) + b.hex() + '00' * pad
+
+
+def corpus_hook(env):
+    d = '11' * 20
+    val = b'val'
+    t = env['topics']
+
+    def delegated(amount):
+        return dict(addr=env['staking'], topics=[t['Delegated']],
+                    data='00' * 12 + d + _word(96) + _word(amount) + _enc_string(val))
+    voted = dict(addr=env['gov'], topics=[t['Voted']], data='00' * 12 + d + _word(1) + _word(1))
+    return [
+        dict(id=-1, which='staking', fail_at=-1, logs=[delegated(7), delegated(0)]),       # C17_hook_alone_not_atomic_refuted
+        dict(id=-2, which='multi', fail_at=-1, logs=[voted, delegated(7)]),                # C17_global_log_order_refuted
+        dict(id=-3, which='staking', fail_at=-1, logs=[dict(addr=env['staking'], topics=[], data='')]),   # C17_hook_total_refuted
+        dict(id=-4, which='staking', fail_at=-1, logs=[dict(addr=env['staking'], topics=[t['Delegated']], data='')]),
+        dict(id=-5, which='multi', fail_at=-1, logs=[dict(delegated(9), addr='22' * 20), delegated(9)]),   # look-alike + real
+    ]
+
+
+CORPUS_EXPECT = {-1: (1, 1), -2: (0, 2), -3: (2, 0), -4: (2, 0), -5: (0, 1)}   # id -> (class, number of messages)
+
+
 def evaluate(workdir, results, mode, tag, shard=None):
     """returns (mismatches, monitor_failures) as lists of (case, step, kind) — or (None, log) when Coq failed"""
     shard = shard or (400 if mode == 'hook' else 12)
@@ -325,6 +357,18 @@ def check(run):
     n_hook = run.budget(6000, 120000)
     n_app = run.budget(160, 3200)
     hooks, err = run_generated(run, 'hook', n_hook, 8)
+    if hooks:
+        env0 = vlib.read_jsonl(os.path.join(run.work, 'hook_out_0.jsonl'))[0]['env']
+        corpus = run_specs(run.work, corpus_hook(env0), 'hook', 'corpus')
+        if corpus is None:
+            hooks, err = None, 'corpus run failed'
+        else:
+            # the refuted statements' witnesses must still behave as the faithful model says (class, #messages);
+            # the model comparison below covers the details
+            run.coverage['refuted_witnesses_replayed'] = [
+                dict(id=c['spec']['id'], cls=c['class'], msgs=len(c['msgs']),
+                     as_modelled=(c['class'], len(c['msgs'])) == CORPUS_EXPECT[c['spec']['id']]) for c in corpus]
+            hooks = corpus + hooks
     apps, err2 = (None, None) if hooks is None else run_generated(run, 'app', n_app, 12, ['-steps', run.budget(10, 16)])
     if hooks is None or apps is None:
         run.violation(dict(kind='harness-crashed', log=(err or err2)), no_input=True)
